@@ -249,6 +249,16 @@ def verify_certificate(
                 )
 
         except (
+            ValueError,
+            x509.DuplicateExtension,
+            x509.UnsupportedGeneralNameType,
+        ) as exc:
+            # The extensions of a certificate are parsed lazily: a certificate
+            # whose subjectAltName cannot be parsed identifies nobody.
+            raise AlertBadCertificate(
+                f"Unable to parse the certificate's subject alternative names: {exc}"
+            )
+        except (
             service_identity.CertificateError,
             service_identity.VerificationError,
         ) as exc:
@@ -280,11 +290,13 @@ def verify_certificate(
         store.load_locations(cafile, capath)
 
     # verify certificate chain
-    store_ctx = crypto.X509StoreContext(
-        store,
-        crypto.X509.from_cryptography(certificate),
-        [crypto.X509.from_cryptography(cert) for cert in chain],
-    )
+    try:
+        # OpenSSL refuses some certificates which `cryptography` parses.
+        leaf = crypto.X509.from_cryptography(certificate)
+        untrusted = [crypto.X509.from_cryptography(cert) for cert in chain]
+    except crypto.Error:
+        raise AlertBadCertificate("Unable to parse the peer certificate chain")
+    store_ctx = crypto.X509StoreContext(store, leaf, untrusted)
     try:
         store_ctx.verify_certificate()
     except crypto.X509StoreContextError as exc:
@@ -2181,7 +2193,7 @@ class Context:
                 x509.load_der_x509_certificate(entry[0])
                 for entry in certificate.certificates
             ]
-        except ValueError:
+        except (ValueError, x509.InvalidVersion):
             raise AlertBadCertificate("Unable to parse the peer certificate")
         self._peer_certificate = peer_certificates[0]
         self._peer_certificate_chain = peer_certificates[1:]
